@@ -142,6 +142,8 @@ fn main() {
     let seed = args.u64("--seed", 1);
     let out = args.str("--out", "");
     vkit::util::install_panic_hook();
+    // every log level is taken (and discarded), so that the arguments of the library's log macros are evaluated
+    vkit::util::install_logger();
     let t0 = std::time::Instant::now();
     let shapes = gen::shapes();
     let n = args.u64("--cases", if tier == "thorough" { 1_000_000 } else { 10_000 });
